@@ -4,6 +4,7 @@ import (
 	"context"
 	"errors"
 	"fmt"
+	"reflect"
 	"runtime"
 	"sort"
 	"strings"
@@ -44,7 +45,11 @@ func matchInjected(err error, inj Injected) bool {
 
 func panicValueMatches(v interface{}, inj Injected) bool {
 	if inj.PV != nil {
-		defer func() { recover() }() // uncomparable dynamic types never match
+		if t := reflect.TypeOf(inj.PV); !t.Comparable() {
+			// slices and structs holding slices: identical contents
+			return reflect.TypeOf(v) == t && reflect.DeepEqual(v, inj.PV)
+		}
+		defer func() { recover() }() // an uncomparable v never matches a comparable injected value
 		return v == inj.PV
 	}
 	re, ok := v.(runtime.Error)
